@@ -5,7 +5,7 @@ import gen
 import msuite
 
 PID = 'C10'
-TAGS = ['putreq', 'putrej', 'getreq', 'got', 'caught']
+TAGS = ['putreq', 'putrej', 'getreq', 'got', 'caught', 'qclose']
 RULE = ('(a) producer/consumer families: 1-3 producers and 1-4 consumers (single gets and iteration with early break) on '
         '1-2 queues inside one (until-)scope, random put/get/close times on a coarse grid, cancels injected after t time units '
         'and k postponements, deadlines, volatile participants; (a2) put/close races and hand-over races: receivers cancelled, closed or cut off in the time step in which items arrive, probed by later puts and a late receiver; (b) random whole-API programs with a queue-heavy profile; '
